@@ -71,34 +71,67 @@ mod verif_replay_runner {{
     use super::*;
     #[test]
     fn verif_replay() {{
-        let concrete_vals: Vec<Vec<u8>> = {vals};
-        let r = std::panic::catch_unwind(|| kani::concrete_playback_run(concrete_vals, {fn}));
-        match r {{
-            Ok(()) => println!("REPLAY-OUTCOME returned covers={{:?}}", kani::covers_reached()),
-            Err(e) => {{
-                if e.is::<kani::AssumeViolated>() {{
-                    println!("REPLAY-OUTCOME assume-violated");
-                }} else {{
-                    let msg = if let Some(s) = e.downcast_ref::<&str>() {{ s.to_string() }}
-                        else if let Some(s) = e.downcast_ref::<String>() {{ s.clone() }} else {{ "?".to_string() }};
-                    println!("REPLAY-OUTCOME panicked {{}}", msg.replace('\\n', " "));
+        let variants: Vec<Vec<Vec<u8>>> = vec![{variants}];
+        let mut k = 0;
+        for concrete_vals in variants {{
+            let r = std::panic::catch_unwind(|| kani::concrete_playback_run(concrete_vals, {fn}));
+            match r {{
+                Ok(()) => println!("REPLAY-OUTCOME {{}} returned covers={{:?}}", k, kani::covers_reached()),
+                Err(e) => {{
+                    if e.is::<kani::AssumeViolated>() {{
+                        println!("REPLAY-OUTCOME {{}} assume-violated", k);
+                    }} else {{
+                        let msg = if let Some(s) = e.downcast_ref::<&str>() {{ s.to_string() }}
+                            else if let Some(s) = e.downcast_ref::<String>() {{ s.clone() }} else {{ "?".to_string() }};
+                        println!("REPLAY-OUTCOME {{}} panicked {{}}", k, msg.replace('\\n', " "));
+                    }}
                 }}
             }}
+            k += 1;
         }}
     }}
 }}
 """
 
 
-def native_replay(scratch, harness_dir, meta, profiles=("dev", "release")):
-    """Run the harness natively on the concrete values. Returns dict profile -> (outcome, detail, log)."""
+def parse_vals(vals_text):
+    """vec![ vec![1,2], vec![3] ] -> [[1,2],[3]] (comments ignored)."""
+    body = re.sub(r"//[^\n]*", "", vals_text).strip()
+    m = re.match(r"vec!\[(.*)\]\s*$", body, re.S)
+    inner = m.group(1) if m else ""
+    return [[int(x) for x in re.findall(r"\d+", g)] for g in re.findall(r"vec!\[([\d,\s]*)\]", inner)]
+
+
+def format_vals(vals):
+    return "vec![" + ", ".join("vec![" + ", ".join(str(b) for b in v) + "]" for v in vals) + "]"
+
+
+def sweep_variants(vals_text, pos, values, width=8):
+    base = parse_vals(vals_text)
+    out = []
+    for v in values:
+        cur = [list(x) for x in base]
+        while len(cur) <= pos:
+            cur.append([0] * width)
+        cur[pos] = list(int(v).to_bytes(width, "little"))
+        out.append(cur)
+    return out
+
+
+def native_replay(scratch, harness_dir, meta, profiles=("dev", "release"), variants=None):
+    """Run the harness natively on the concrete values (or on each of `variants`, a list of value lists).
+    Returns dict profile -> list of (outcome, detail) per variant; plus key '_log'."""
     module = meta["module"]
     fn = meta["harness"].split("::")[-1]
     with open(os.path.join(harness_dir, "common.rs")) as f:
         common = f.read()
     with open(os.path.join(harness_dir, meta["source"])) as f:
         src = f.read()
-    src += "\n" + meta["inst"] + "\n" + RUNNER.format(vals=meta["vals_text"], fn=fn)
+    if variants is None:
+        vtext = meta["vals_text"]
+    else:
+        vtext = ",\n".join(format_vals(v) for v in variants)
+    src += "\n" + meta["inst"] + "\n" + RUNNER.format(variants=vtext, fn=fn)
     mods = {"verif_common": common}
     for dep in meta.get("deps", []):
         with open(os.path.join(harness_dir, dep[1])) as f:
@@ -125,11 +158,12 @@ def native_replay(scratch, harness_dir, meta, profiles=("dev", "release")):
             log = p.stdout
         except subprocess.TimeoutExpired as e:
             log = (e.stdout or "") + "\nTIMEOUT"
-        m = re.search(r"REPLAY-OUTCOME (\S+)(.*)", log)
-        if m:
-            results[prof] = (m.group(1), m.group(2).strip(), log)
-        else:
-            results[prof] = ("error", "", log)
+        outs = []
+        for m in re.finditer(r"REPLAY-OUTCOME (\d+) (\S+)(.*)", log):
+            outs.append((m.group(2), m.group(3).strip()))
+        if not outs:
+            outs = [("error", "\n".join(log.splitlines()[-15:]))]
+        results[prof] = outs
     shutil.rmtree(cdir, ignore_errors=True)
     return results
 
@@ -137,13 +171,15 @@ def native_replay(scratch, harness_dir, meta, profiles=("dev", "release")):
 def reproduced(kind, results):
     """Decide whether the native runs confirm the counterexample.
     kind 'holds': a panic (harness assertion, library assert, overflow) in either profile.
-    kind 'must_panic': a normal return in either profile."""
-    profs = []
-    for prof, (outcome, detail, _log) in results.items():
-        if kind == "must_panic":
-            if outcome == "returned":
-                profs.append(prof)
-        else:
-            if outcome == "panicked":
-                profs.append(prof)
-    return profs
+    kind 'must_panic': a normal return (reaching the RETURNED cover) in either profile.
+    Returns list of (profile, variant index)."""
+    hits = []
+    for prof, outs in results.items():
+        for k, (outcome, detail) in enumerate(outs):
+            if kind == "must_panic":
+                if outcome == "returned" and "RETURNED" in detail:
+                    hits.append((prof, k))
+            else:
+                if outcome == "panicked":
+                    hits.append((prof, k))
+    return hits
